@@ -333,3 +333,36 @@ def typed_docs(item):
             yield ("chars %s too long" % a.name, doc_with(a.name, "x" * (hi + 1)), "reject")
         # unknown attribute on the element
     yield ("unknown attribute", doc_with("notanattribute", "1"), "reject")
+
+
+# ------------------------------------------------------------------ sanitizer library for C37
+
+C37_EXTRA = ("-fno-sanitize=nonnull-attribute",)
+
+
+def ensure_asan_lib():
+    """The tree library built like build.ensure('asan') plus -fno-sanitize=nonnull-attribute: UBSan's nonnull-attribute
+    check fires on *valid* models (memset/memcpy(NULL, ., 0) in mju_zero <- mj_transmission, mj_resetData with
+    nplugin state 0) and -fno-sanitize-recover would end every process there; everything else of ASan/UBSan stays on."""
+    import subprocess
+    import sys
+    from .. import gen_wrappers
+    with build._lock:
+        srcs = build.lib_sources()
+        wcc, _ = gen_wrappers.ensure()
+        srcs = srcs + [os.path.join(build.NATIVE, "support.cc"), wcc]
+        objs = build.compile_many(srcs, "asan", C37_EXTRA)
+        key = build._sha("asan-c37", *objs)
+        outdir = os.path.join(build.CACHE, "lib", "asan-c37", key)
+        out = os.path.join(outdir, "libmujoco_verif.so")
+        if os.path.exists(out):
+            return out
+        os.makedirs(outdir, exist_ok=True)
+        tmp = out + ".%d.tmp" % os.getpid()
+        cmd = [build.CXX, "-shared", "-Wl,-Bsymbolic", "-o", tmp] + objs + build._link_flags("asan")
+        r = subprocess.run(cmd, capture_output=True, text=True)
+        if r.returncode != 0:
+            sys.stderr.write("LINK ERROR\n%s\n" % r.stderr[-4000:])
+            raise SystemExit(2)
+        os.replace(tmp, out)
+        return out
